@@ -96,7 +96,7 @@ Proof.
     + rewrite fresh_other in Hj by exact Hne. destruct (fresh_readings _ _ Hj) as (E1 & E2 & _). rewrite E1. rewrite E2 in Hid.
       eapply I3; eauto.
   - intros j nj Hj Hm. destruct (N.eq_dec j r) as [->|Hne].
-    + rewrite fresh_self in Hj. injection Hj as <-. rewrite Hleaf. reflexivity.
+    + rewrite fresh_self in Hj. injection Hj as <-. left. exact Hleaf.
     + rewrite fresh_other in Hj by exact Hne. eapply IL; eauto.
 Qed.
 
